@@ -115,9 +115,11 @@ std::vector<std::string>& split(std::vector<std::string>* into,
 
     tlx::string_view::const_iterator it = str.begin(), last = it;
 
-    for (; it + sep.size() < str.end(); ++it)
+    // compare sizes instead of forming it + sep.size(), which may point far
+    // beyond the end. A separator at the very end must be found as well.
+    while (static_cast<size_t>(str.end() - it) >= sep.size())
     {
-        if (std::equal(sep.begin(), sep.begin() + sep.size(), it))
+        if (std::equal(sep.begin(), sep.end(), it))
         {
             if (into->size() + 1 >= limit)
             {
@@ -126,7 +128,13 @@ std::vector<std::string>& split(std::vector<std::string>* into,
             }
 
             into->emplace_back(last, it);
-            last = it + sep.size();
+            // continue behind the separator: occurrences do not overlap
+            it += sep.size();
+            last = it;
+        }
+        else
+        {
+            ++it;
         }
     }
 
